@@ -15,6 +15,7 @@ import (
 	"os"
 	"strconv"
 	"strings"
+	"sync"
 	"sync/atomic"
 	"testing"
 	"testing/synctest"
@@ -404,11 +405,19 @@ func batchC15(res *h.Result, r *rand.Rand) {
 			}
 		}
 	}
+	type verdict struct {
+		nd    node
+		p, tr bool
+	}
+	var pool []verdict
 	for i := 0; i < n; i++ {
 		nd := genTree(r, 4)
 		p, tr := leader.IsPermanentError(nd.err), leader.IsTransientError(nd.err)
 		res.Evals++
 		distinct[nd.desc] = true
+		if len(pool) < 96 {
+			pool = append(pool, verdict{nd, p, tr})
+		}
 		if p == tr {
 			addViol(res, "C15", "exclusive-total", fmt.Sprintf("both=%v:%s", p, classifiedLeaves(nd.desc)), fmt.Sprintf("IsPermanentError=%v IsTransientError=%v for %s", p, tr, nd.desc))
 		}
@@ -432,6 +441,36 @@ func batchC15(res *h.Result, r *rand.Rand) {
 		}
 		if len(res.Samples) < 3 {
 			res.Samples = append(res.Samples, map[string]any{"error": nd.desc, "permanent": p, "transient": tr})
+		}
+	}
+	// the classifiers are called from every loop of every election of a process at once: the
+	// verdict on a value is the same when eight goroutines classify at the same time (the
+	// values of this batch, verdicts taken one at a time above)
+	if len(pool) > 0 {
+		var wg sync.WaitGroup
+		var mu sync.Mutex
+		bad := map[string]string{}
+		for g := 0; g < 8; g++ {
+			wg.Add(1)
+			go func(g int) {
+				defer wg.Done()
+				for it := 0; it < 2500; it++ {
+					v := pool[(it*7+g*13)%len(pool)]
+					p, tr := leader.IsPermanentError(v.nd.err), leader.IsTransientError(v.nd.err)
+					if p != v.p || tr != v.tr {
+						mu.Lock()
+						if len(bad) < 4 {
+							bad[classifiedLeaves(v.nd.desc)] = fmt.Sprintf("%s: permanent=%v transient=%v alone, permanent=%v transient=%v while 8 goroutines classify", v.nd.desc, v.p, v.tr, p, tr)
+						}
+						mu.Unlock()
+					}
+				}
+			}(g)
+		}
+		wg.Wait()
+		res.Obs["c15.concurrent_classifications"] += 8 * 2500
+		for _, d := range bad {
+			addViol(res, "C15", "stable-verdict", "verdict-differs-under-concurrent-use", d)
 		}
 	}
 	res.Distinct = len(distinct)
@@ -908,7 +947,14 @@ func batchRetry(t *testing.T, res *h.Result, r *rand.Rand) {
 			cancelAt = time.Duration(r.Int64N(int64(3 * time.Second)))
 		}
 		preCancelled := r.IntN(10) == 0
-		key := fmt.Sprintf("%s/%d/%v/%v/%v", script, maxAtt, cfg.BackoffConfig, cancelAt, preCancelled)
+		// every third script runs through a circuit breaker that never opens (threshold far
+		// above the runaway guard): the retry contract is the same with and without it
+		withCB := r.IntN(3) == 0
+		if withCB {
+			cfg.CircuitBreaker = leader.NewCircuitBreaker(1000, time.Second)
+			res.Obs["c17.retry_scripts_through_breaker"]++
+		}
+		key := fmt.Sprintf("%s/%d/%v/%v/%v/%v", script, maxAtt, cfg.BackoffConfig, cancelAt, preCancelled, withCB)
 		distinct[key] = true
 		var calls []time.Duration
 		var errs []error // what each invocation returned
@@ -965,7 +1011,7 @@ func batchRetry(t *testing.T, res *h.Result, r *rand.Rand) {
 			ctxErrAtEnd = ctx.Err()
 		})
 		res.Evals++
-		desc := fmt.Sprintf("script=%q MaxAttempts=%d backoff=%+v cancelAt=%v pre=%v -> calls at %v, returned %v", script, maxAtt, cfg.BackoffConfig, cancelAt, preCancelled, calls, ret)
+		desc := fmt.Sprintf("script=%q MaxAttempts=%d backoff=%+v breaker=%v cancelAt=%v pre=%v -> calls at %v, returned %v", script, maxAtt, cfg.BackoffConfig, withCB, cancelAt, preCancelled, calls, ret)
 		outcome := func(i int) byte {
 			if i < len(script) {
 				switch script[i] {
